@@ -91,3 +91,28 @@ Definition die_same (e1 a1 e2 a2 deps tin : Qc) (d : DieModel.desc) : bool :=
   result_eqb (DieModel.die_model e1 a1 deps tin d) (DieModel.die_model e2 a2 deps tin d).
 (* the predicate of C20_eps_insensitive_die_model *)
 Definition die_robust (lo hi alo ahi deps tin : Qc) (d : DieModel.desc) : bool := robust_die lo hi alo ahi d.
+
+(* ---- objects built from default arguments; Strop with default sizes ---- *)
+(* the model's prediction does not mention the history: whatever was executed before, the default objects are the
+   import-time ones (StateFacts.defaults_never_written), so the observed steps - alone and after the history - must
+   equal the model's steps from [dflt_init] *)
+From FrameModel Require Cases.CmpC15.
+Definition dout_eqb (a b : dout) : bool :=
+  match a, b with
+  | DOIneq x, DOIneq y => Expr.ineq_eqb x y
+  | DOExpr x, DOExpr y => Expr.expr_eqb x y
+  | _, _ => false
+  end.
+Definition defaults_ck (steps : list dstep) (observed : list dout) : bool :=
+  list_eqb dout_eqb (snd (dsteps_run dflt_init steps)) observed.
+
+Definition sr4 (x : nat * nat * nat * nat) : SP.SRect := let '(a, b, c, d) := x in SP.mkSR a b c d.
+Definition strop_ck (rows : list string) (h w : option (list Qc))
+  (expected : option (list (list (nat * nat * nat * nat)) * bool * list Qc * list Qc)) : bool :=
+  match strop_run dflt_init (CmpC15.mat rows) h w, expected with
+  | None, None => true
+  | Some (l, isb, hh, ww), Some (e, isb', hh', ww') =>
+      CmpC15.leqb (CmpC15.leqb SP.srect_eqb) (map SP.rectangles l) (map (map sr4) e) &&
+      Bool.eqb isb isb' && list_eqb Qceqb hh hh' && list_eqb Qceqb ww ww'
+  | _, _ => false
+  end.
